@@ -55,8 +55,10 @@ EXTERNALS.setdefault("fnmatch.fnmatch", _x_fnmatch)
 
 
 def _native_start_rules(line):
+    # natively the real SET (the symbolic model is the sequence of its elements; only `in`, any() and == between
+    # rule sets are applied to it, which mean the same on the set)
     from pyvc.native import call_target
-    return sorted(call_target(IG + "_parse_ignore_start_rules", line))
+    return call_target(IG + "_parse_ignore_start_rules", line)
 
 
 start_rules = uf("ignore_start_rules", [Str], SeqOf(Str), concrete=_native_start_rules)
@@ -207,7 +209,7 @@ class IsValidLineRange:
           modifies=["self.in_block", "self.rules", "self.covers_violation"])
 class BlockStateInit:
     def ensures(self):
-        return (not self.in_block) and self.rules == [] and not self.covers_violation
+        return (not self.in_block) and not self.rules and not self.covers_violation
 
 
 @contract(IG + "_parse_ignore_start_rules", props=["C04"], types=dict(line=Str), returns=SeqOf(Str),
@@ -228,7 +230,7 @@ class HandleBlockEnd:
                         and rmv(old.state.rules, violation.rule_id)) else None
 
     def ensures_state(line_num, violation, state, old, result):
-        return (implies(result is None, (not state.in_block) and state.rules == [])
+        return (implies(result is None, (not state.in_block) and not state.rules)
                 and implies(result is not None, state.in_block == old.state.in_block and state.rules == old.state.rules))
 
 
@@ -248,7 +250,7 @@ class ProcessBlockLine:
                        (result == (True if (old.state.in_block and old.state.covers_violation
                                             and line_num > violation.line
                                             and rmv(old.state.rules, violation.rule_id)) else None))
-                       and implies(result is None, (not state.in_block) and state.rules == [])
+                       and implies(result is None, (not state.in_block) and not state.rules)
                        and state.covers_violation == old.state.covers_violation)
 
     def ensures_plain(line, line_num, violation, state, old, result):
@@ -274,9 +276,11 @@ class CheckBlockIgnore:
         return block_ignores(lines, violation.line, violation.rule_id)
 
     def inv0(lines, violation, state, rest):
+        # outside a block the rule set is irrelevant (the scanner resets it to the empty set; the spec passes [])
         return len(rest) <= len(lines) and \
             block_scan(lines, 1, False, [], False, violation.line, violation.rule_id) == \
-            block_scan(rest, len(lines) - len(rest) + 1, state.in_block, state.rules, state.covers_violation,
+            block_scan(rest, len(lines) - len(rest) + 1, state.in_block, state.rules if state.in_block else [],
+                       state.covers_violation,
                        violation.line, violation.rule_id)
 
 
